@@ -188,6 +188,16 @@ def run(ctx, chk, tier):
             chk.violation("R20.5", q, tag + ":decoding", show(v, 200), "data[0] = joint % 2, data[1] = joint // 2 in a (2, n) buffer", ctx.where(q))
             continue
         joint = r0.args[0]
+        c = mul(sub(Const(1), P1), sub(Const(1), P2))
+        a = add(c, mul(RHO, mk_app("sqrt", [mul(mul(P1, P2), c)])))
+        want = [a, sub(sub(Const(1), P2), a), sub(sub(Const(1), P1), a), sub(add(add(P1, P2), a), Const(1))]
+        # validity check: raise exactly when some probability is negative
+        tk = [cnd for cnd, t in rs[0].pc if t]
+        wantc = disj([cmp0("lt", to_poly(w)) for w in want])
+        if tk and tk[-1] == wantc and isinstance(rs[0].value, App) and rs[0].value.fn == "ValueError":
+            chk.hold("R20.5", tag + ":validity", "ValueError iff some joint probability is negative")
+        else:
+            chk.violation("R20.5", q, tag + ":validity", show(tk[-1], 300) if tk else "unconditional", "any(P < 0) over all four joint probabilities", ctx.where(q))
         if rnd:
             pv = joint.kwd("p") if isinstance(joint, App) else None
         else:
@@ -206,12 +216,9 @@ def run(ctx, chk, tier):
                             chk.violation("R20.5", q, "non-random:remainder", show(cnt.items[3], 200), "n - sum of the first three counts", ctx.where(q))
         if isinstance(pv, Tup):
             pv = list(pv.items)
-        if pv is None or len(pv) != 4:
+        if not isinstance(pv, list) or len(pv) != 4:
             chk.unknown("R20.5", "joint probabilities not recognised (%s)" % tag)
             continue
-        c = mul(sub(Const(1), P1), sub(Const(1), P2))
-        a = add(c, mul(RHO, mk_app("sqrt", [mul(mul(P1, P2), c)])))
-        want = [a, sub(sub(Const(1), P2), a), sub(sub(Const(1), P1), a), sub(add(add(P1, P2), a), Const(1))]
         items = list(pv)
         if items[3] is None:
             items[3] = want[3]
@@ -226,13 +233,6 @@ def run(ctx, chk, tier):
         else:
             bad = [(i, g, w) for i, (g, w) in enumerate(zip(items, want)) if not same(g, w)][0]
             chk.violation("R20.5", q, "%s:joint-table[%d]" % (tag, bad[0]), show(bad[1], 200), show(bad[2], 200), ctx.where(q))
-        # validity check: raise exactly when some probability is negative
-        tk = [cnd for cnd, t in rs[0].pc if t]
-        wantc = disj([cmp0("lt", to_poly(w)) for w in want])
-        if tk and tk[-1] == wantc and isinstance(rs[0].value, App) and rs[0].value.fn == "ValueError":
-            chk.hold("R20.5", tag + ":validity", "ValueError iff some joint probability is negative")
-        else:
-            chk.violation("R20.5", q, tag + ":validity", show(tk[-1], 300) if tk else "unconditional", "any(P < 0) over all four joint probabilities", ctx.where(q))
     chk.floor("R20.1", 6, "4 compositions + 2 roc forms")
     chk.floor("R20.5", 7, "joint table, marginals, validity x 2 + counts")
 
